@@ -266,6 +266,12 @@ def runLive04 (kv : List (String × String)) : IO Res := do
     if traced && exp.tid == lc.cfg.blamed then
       if recs.length != 0 then return .propfail "a thread traced by another process is listed" tags
       continue
+    -- a thread waiting with a null stack pointer is a sandbox helper: skipped by design
+    if !exp.spin && exp.rsp == 0 then
+      if recs.length != 0 then return .propfail s!"thread {exp.tid} has a null stack pointer (sandbox helper) but is listed" tags
+      tags := "thread.nullsp" :: tags
+      continue
+    if !exp.spin && (exp.rsp < 0x10000 || exp.rsp ≥ 2 ^ 47) then tags := "thread.oddsp" :: tags
     expectedCount := expectedCount + 1
     if recs.length != 1 then return .propfail s!"thread {exp.tid} listed {recs.length} times" tags
     let t := recs.head!
